@@ -12,7 +12,8 @@ MIB = 1024 ** 2
 def digest_cases(tier):
     sizes = [0, 1, 4097, MIB - 1, MIB, MIB + 1] + ([2 * MIB, 3 * MIB - 1, 3 * MIB, 3 * MIB + 5] if tier == "thorough" else [2 * MIB + 3])
     algs = sorted(hashlib.algorithms_available)
-    return [{"size": s, "alg": a, "seed": i} for i, s in enumerate(sizes) for a in algs]
+    big = [{"size": 32 * MIB + 4097, "alg": a, "seed": 99} for a in ("sha256", "md5") if a in algs]
+    return [{"size": s, "alg": a, "seed": i} for i, s in enumerate(sizes) for a in algs] + big
 
 
 def impl_digest(case):
@@ -175,7 +176,8 @@ def gen_sections(rng, n):
                 val = rstr(rng, hexd, L, L)
             else:
                 val = rng.choice(["sha256:ab:cd", ":", "sha1:"])
-            path = rng.choice(["images/boot.iso", "images/pxeboot/vmlinuz", "repodata/repomd.xml", "LiveOS/squashfs.img", "/abs/path", "Z/last", "a/first"]) + ("" if i == 0 else str(i))
+            path = rng.choice(["images/boot.iso", "images/pxeboot/vmlinuz", "repodata/repomd.xml", "LiveOS/squashfs.img", "/abs/path", "Z/last", "a/first",
+                               "x/../images/boot.iso", "./a/first", "a//first", "images/./boot.iso"]) + ("" if i == 0 else str(i))
             entries.append([path, val])
         text = BASE + "[checksums]\n" + "".join("%s = %s\n" % (p, v) for p, v in entries) + "\n"
         cases.append({"text": text, "entries": entries})
